@@ -161,6 +161,75 @@ func TestC15_TickerCollector(t *testing.T) {
 	}
 }
 
+// TestC15_TickerParked: the built-in collector goroutine is parked inside its tick (in the clock)
+// while Close is called. Close may only return once that goroutine has finished.
+func TestC15_TickerParked(t *testing.T) {
+	rec := evid.For("C15")
+	c15Notes(rec)
+	for i := 0; i < evid.Pick(6, 40); i++ {
+		clock := &sim.Clock{}
+		var seq atomic.Int64
+		conn := sim.NewConn(clock, &seq)
+		var armed atomic.Bool
+		parked := make(chan struct{}, 1)
+		release := make(chan struct{})
+		var once sync.Once
+		clock.OnNow = func() {
+			if armed.Load() {
+				once.Do(func() {
+					parked <- struct{}{}
+					<-release
+				})
+			}
+		}
+		c, err := stun.NewClient(conn, stun.WithClock(clock), stun.WithTimeoutRate(time.Millisecond), stun.WithRTO(time.Hour))
+		if err != nil {
+			t.Fatalf("NewClient: %v", err)
+		}
+		if i%2 == 1 {
+			_ = c.Start(request(1, 28), func(stun.Event) {})
+		}
+		armed.Store(true)
+		problem := ""
+		select {
+		case <-parked:
+		case <-time.After(10 * time.Second):
+			problem = "harness: the ticker goroutine never asked the clock"
+		}
+		done := make(chan error, 1)
+		if problem == "" {
+			go func() { done <- c.Close() }()
+			select {
+			case <-done:
+				// Close returned although the collector goroutine is provably still inside its tick
+				problem = "Close returned while the collector goroutine was still running (parked inside its tick)"
+			case <-time.After(40 * time.Millisecond):
+			}
+		}
+		close(release)
+		if problem == "" {
+			select {
+			case cerr := <-done:
+				if cerr != nil {
+					problem = fmt.Sprintf("Close returned %v", cerr)
+				} else if g := leakedGoroutines(); g != "" {
+					problem = "goroutine left behind after Close:\n" + g
+				}
+			case <-time.After(30 * time.Second):
+				problem = "Close did not return within 30 s after the collector tick finished"
+			}
+		} else {
+			_ = c.Close()
+		}
+		rec.Case("ticker-parked", evid.NewH().Str("parked").I(i).Sum(), true, func() any { return map[string]int{"variant": i} })
+		if problem != "" {
+			pbt.Fail(t, rec, "ticker", map[string]int{"parked_variant": i}, "%s", problem)
+
+			return
+		}
+	}
+}
+
 // ---- concurrent use ----------------------------------------------------------
 
 type stressCase struct {
